@@ -149,6 +149,18 @@ def apply_op(op, root, node, model, labels):
             labels.add("op:compound_xobject_same_buffer" if same else "op:compound_xobject_other_buffer")
             if tg.has_refs(cspec):
                 labels.add("op:compound_xobject_with_refs")
+        if (cspec["k"] == "array" and len(cspec["shape"]) >= 2 and op["int"] % 5 == 2 and hasattr(root, "_buffer")
+                and not tg.is_dynamic(cspec["item"]) and not tg.has_refs(cspec) and all(d > 0 for d in new["shape"])):
+            # the value is an xobject array of ANOTHER class: same item type and shape, another axis order (element [i,j]
+            # of the value must end up as element [i,j] of the target whatever the memory orders are)
+            nd_ = len(cspec["shape"])
+            other_order = list(reversed(cspec["order"])) if list(reversed(cspec["order"])) != list(cspec["order"]) else cspec["order"][1:] + cspec["order"][:1]
+            ospec = dict(cspec, order=other_order, name="OO" + tg.type_name(cspec))
+            onode = mat.materialise(ospec)
+            arg = sut(onode.cls, plain_arg(onode, new), _buffer=root._buffer)
+            if is_raised(arg):
+                return arg
+            labels.add("op:compound_array_of_other_axis_order")
         if not path:
             tgt = root if op["via"] == "handle" or not hasattr(root, "_buffer") else mat.view_of(root)
             r = sut(tgt._update, arg)
